@@ -283,6 +283,40 @@ example : RoutesWf exS1 ∧ RidsWf exS1 ∧ Stored exS1 exRoute ∧
   rw [← exS1_reachable]
   exact routesWf_run _ _ _ (routesWf_init [])
 
+/-- `reply_and_expiry_together`: when the owner's reply and the expiry of the request's timer are
+    both ready (same event-loop iteration), exactly one answer is produced whichever is processed
+    first — the second of the two operations changes nothing and emits nothing. -/
+theorem reply_and_expiry_together (cfg : Config) (s : State) (r : Route) (orc₁ orc₂ : Oracle)
+    (members : List (Bytes × Json)) (payload : Json) (typ : String)
+    (hw : RoutesWf s) (hr : RidsWf s) (hin : Stored s r)
+    (hresp : IsResponse (.obj members) payload typ)
+    (hid : (Json.obj members).getItem (k "id") = some (.str r.rid)) :
+    -- reply first: the relay is the answer, the expiry finds nothing
+    (let s1 := (step cfg s (.message r.owner (some (.obj members)) orc₁)).1
+     (step cfg s (.message r.owner (some (.obj members)) orc₁)).2 =
+        .timerDestroy r.timer :: answerSends r.requester (replyAnswer r payload typ) (orc₁.sends.headD true) ∧
+     step cfg s1 (.timerFire r.timer orc₂) = (s1, [])) ∧
+    -- expiry first: the timeout error is the answer, the reply finds nothing
+    (let s1 := (step cfg s (.timerFire r.timer orc₁)).1
+     (step cfg s (.timerFire r.timer orc₁)).2 =
+        answerSends r.requester (timeoutAnswer r) (orc₁.sends.headD true) ++ [.timerDestroy r.timer] ∧
+     step cfg s1 (.message r.owner (some (.obj members)) orc₂) = (s1, [])) := by
+  constructor
+  · intro s1
+    have h := (final_answer_reply cfg s orc₁ members payload typ r hr hin hresp hid).1
+    refine ⟨congrArg Prod.snd h, ?_⟩
+    apply late_expiry_ignored
+    intro r' hr'
+    have hs1 : s1 = { s with peers := removeRoute s.peers r.owner r.rid } := congrArg Prod.fst h
+    rw [hs1] at hr'
+    have hmem : r' ∈ vRoutes (vRemove (s.peers.map pview) r.owner r.rid) := by
+      rw [← map_pview_removeRoute, vRoutes_map_pview]; exact hr'
+    exact no_timer_after_drop (a := rsS s []) hw ((stored_iff s r).mp hin) r' hmem
+  · intro s1
+    refine ⟨congrArg Prod.snd (final_answer_timeout cfg s orc₁ r hw hin).1, ?_⟩
+    exact reply_after_timeout_ignored cfg s r orc₁ orc₂ [] members payload typ hw hr hin
+      (fun _ h => nomatch h) (by have := hr.bound; simp [runWeight]; exact this) hresp hid
+
 /-- `timeout_only_on_fire`: the timeout answer of `r` is what `timerFire r.timer` emits while `r`
     is stored (`final_answer_timeout`); an operation other than the expiry of `r`'s own timer that
     ends `r`'s life is a reply of its owner (→ relay), a drop or disconnect of its owner
@@ -310,6 +344,14 @@ theorem timeout_only_on_fire (cfg : Config) (s : State) (op : Op) (r : Route)
     | timerFire t o =>
       have : t = r.timer := hres
       exact absurd (this ▸ rfl) (hnot o)
+
+example : RoutesWf exS1 ∧ RidsWf exS1 ∧ OpOk (.connect 3 false true (k "0x3")) ∧
+    exS1.uuid + opWeight (.connect 3 false true (k "0x3")) < 4294967296 ∧ Stored exS1 exRoute ∧
+    (∀ o, Op.connect 3 false true (k "0x3") ≠ .timerFire exRoute.timer o) := by
+  refine ⟨?_, exS1_rids, by decide +kernel, by decide +kernel, ⟨_, by with_unfolding_all rfl, .head _⟩,
+    fun _ h => nomatch h⟩
+  rw [← exS1_reachable]
+  exact routesWf_run _ _ _ (routesWf_init [])
 
 /-! ## 9. The event loop -/
 
